@@ -154,6 +154,9 @@ func runC12(c *Ctx, tier string) {
 	runC12P5(c)
 	runJournalFreshness(c, "C12-F1")
 	runJournalKeyUniqueness(c, "C12-U1")
+	runListCommitsPrePlayed(c, "C12-R1")
+	runKeyedUpdatesConstrained(c, "C12-M1")
+	runSnapshotNotAheadOfHead(c, "C12-F2")
 }
 
 func runC12P1(c *Ctx) {
